@@ -112,6 +112,38 @@ def api_warmup():
             if isinstance(obj, type) and hasattr(obj, "as_dict"):
                 obj().as_dict()
 
-    for label, fn in (("kernels", kernels), ("update", update), ("elastic", elastic), ("textures", textures), ("geometry", geometry_), ("params", params_)):
+    def files_():
+        # configuration, SCSV and NPZ files with NON-default contents, written and read back in a scratch directory
+        import os
+        import shutil
+        import tempfile
+
+        import pydrex.io as pio
+
+        d = tempfile.mkdtemp(prefix="vf_warm_")
+        cwd = os.getcwd()
+        try:
+            os.chdir(d)
+            schema = {"delimiter": ";", "missing": "NA", "fields": [{"name": "p", "type": "string", "fill": "none"}, {"name": "q", "type": "integer", "fill": -7},
+                                                                  {"name": "r", "type": "float", "fill": float("nan")}, {"name": "s", "type": "boolean"}]}
+            pio.save_scsv("w.scsv", schema, [["u", "none", "w w"], [1, -7, 3], [0.5, float("nan"), float("inf")], [True, False, True]])
+            pio.read_scsv("w.scsv")
+            pio.save_scsv("start.scsv", {"delimiter": ",", "missing": "-", "fields": [{"name": "X", "type": "float", "fill": float("nan")}, {"name": "Z", "type": "float", "fill": float("nan")}]}, [[1.0], [2.0]])
+            with open("w.toml", "w") as f:
+                f.write('name = "warm"\n[input]\nvelocity_gradient = ["cell_2d", "X", "Z", 2.0, 1e-6]\nlocations_initial = "start.scsv"\ntimestep = 1e7\n'
+                        '[output]\ndirectory = "out"\nraw_output = ["enstatite"]\ndiagnostics = ["olivine"]\nanisotropy = ["Voigt"]\nlog_level = "ERROR"\n'
+                        '[parameters]\nphase_assemblage = ["enstatite", "olivine"]\nphase_fractions = [0.25, 0.75]\ninitial_olivine_fabric = "D"\nstress_exponent = 2.0\n'
+                        'deformation_exponent = 4.5\ngbm_mobility = 10\ngbs_threshold = 0.1\nnucleation_efficiency = 3.0\nnumber_of_grains = 77\n')
+            pio.parse_config("w.toml")
+            m = pydrex.Mineral(phase=P.enstatite, fabric=F.enstatite_AB, regime=Rg.frictional_yielding, n_grains=4, seed=11)
+            m.save("w.npz")
+            m.save("w2.npz", postfix="warm")
+            pydrex.Mineral(n_grains=9, seed=1).load("w.npz")
+            pydrex.Mineral.from_file("w2.npz", postfix="warm")
+        finally:
+            os.chdir(cwd)
+            shutil.rmtree(d, ignore_errors=True)
+
+    for label, fn in (("kernels", kernels), ("update", update), ("elastic", elastic), ("textures", textures), ("geometry", geometry_), ("params", params_), ("files", files_)):
         attempt(label, fn)
     return notes
